@@ -19,8 +19,9 @@ strengthened = [json.load(open(os.path.join(d, "meta.json")))["caught_by"] for d
                 if "missed" in json.load(open(os.path.join(d, "meta.json")))["caught_by"].lower()]
 text = f"""## 14. Seeded changes: which checks catch which
 
-{len(rows)} changes were produced by fresh sub-agents that were given only the text of one property and
-a scratch worktree of `/repo` (nothing from `/verif`).  Each compiles, passes the 49 + 1 existing
+{len(rows)} changes were produced, in two rounds, by fresh sub-agents that were given only the text of
+one property and a scratch worktree of `/repo` (nothing from `/verif`); changes that merely repeated an
+earlier one were not stored.  Each compiles, passes the 49 + 1 existing
 tests, and breaks the property on a demonstration the agent delivered; each was confirmed by me
 in a separate worktree (`tools/confirm_seed.sh`: suite with the patch, demo with and without) before
 it was stored as `seeded/<id>/` (`patch.diff`, `demo/`, `notes.md`, `meta.json`).  None is ever
